@@ -340,7 +340,7 @@ func (m *collection) ExecuteBatch(bIn Batch,
 	m.m.Lock()
 
 	for m.stackDirtyTop != nil &&
-		len(m.stackDirtyTop.a) >= maxPreMergerBatches {
+		m.stackDirtyTop.numBatches >= maxPreMergerBatches {
 		if m.isClosed() {
 			m.m.Unlock()
 			return ErrClosed
@@ -363,6 +363,10 @@ func (m *collection) ExecuteBatch(bIn Batch,
 	m.invalidateLatestSnapshotLOCKED()
 
 	stackDirtyTop := m.buildStackDirtyTop(b, m.stackDirtyTop)
+	stackDirtyTop.numBatches = 1
+	if m.stackDirtyTop != nil {
+		stackDirtyTop.numBatches += m.stackDirtyTop.numBatches
+	}
 
 	prevStackDirtyTop := m.stackDirtyTop
 	m.stackDirtyTop = stackDirtyTop
